@@ -38,6 +38,8 @@ def make (c):
     else:
         med = 'ideal' if env == 'ideal' else [[float (rng.uniform (2, 80)), float (10 ** rng.uniform (-4, 1)), 0.0]]
         spec = gen.fam_ground (rng, media = med)
+        if env == 'real' and c ['i'] % 2:
+            gen.rand_media (np.random.default_rng ([c ['seed'], 193, c ['i']]), spec)      # 1..3 media, radials
     # stretch the whole structure over many decades of size: scale coordinates, divide frequency
     s = float (10 ** rng.uniform (-3, 3)) if rng.random () < 0.5 else 1.0
     spec ['f'] = spec ['f'] / s
@@ -61,6 +63,12 @@ def make (c):
             loads.append (dict (k = 'rlc', R = float (10 ** rng.uniform (-3, 4)), L = float (10 ** rng.uniform (-9, -3)), C = float (10 ** rng.uniform (-13, -7)), att = att))
         elif kind == 'lap':
             loads.append (dict (k = 'lap', a = [1.0, float (10 ** rng.uniform (-9, -6))], b = [float (10 ** rng.uniform (0, 3)), float (10 ** rng.uniform (-8, -5))], att = att))
+            ro = np.random.default_rng ([c ['seed'], 192, c ['i']])
+            if ro.random () < 0.6:
+                # rational functions of higher order (coefficient of S^d of the size 1e-7d): up to S^5
+                od = int (ro.integers (2, 6))
+                loads [-1]['a'] = [1.0] + [float (10 ** (-7.0 * d + ro.uniform (-1, 1))) for d in range (1, od + 1)]
+                loads [-1]['b'] = [float (10 ** ro.uniform (0, 3))] + [float (10 ** (-7.0 * d + ro.uniform (0, 3))) for d in range (1, od + 1)]
         elif kind == 'skin':
             loads.append (dict (k = 'skin', cond = float (10 ** rng.uniform (4, 8)), tag = None))
         else:
@@ -178,6 +186,15 @@ def check_model (spec):
         for rm, mm in zip (rep ['media'], m.media):
             J.tok ('media.eps', rm ['eps'], mm.permittivity)
             J.tok ('media.sigma', rm ['sigma'], mm.conductivity)
+        # interface coordinate of every medium but the last, height of every medium but the first, radial screen
+        for k, (rm, mm) in enumerate (zip (rep ['media'], m.media)):
+            last, first = k == len (m.media) - 1, k == 0
+            for fld, present, val in (('coord', not last, mm.coord), ('height', not first, mm.height)
+                                     , ('nradials', bool (mm.nradials), mm.nradials), ('radius', bool (mm.nradials), mm.radius)):
+                if present != (fld in rm):
+                    bad ('media-lines', 'medium %d of %d: %s line %s' % (k + 1, len (m.media), fld, 'missing' if present else 'printed though it does not apply'))
+                elif present:
+                    J.tok ('media.' + fld, rm [fld], val, integer = (fld == 'nradials'))
     # ---- objects
     if len (rep ['objects']) != len (m.geo) or int (rep.get ('nobjects', -1)) != len (m.geo):
         bad ('object-count', '%d object blocks for %d objects' % (len (rep ['objects']), len (m.geo)))
